@@ -4,13 +4,14 @@
    and Message::encode(f8String&) in coq/Codec (every write into a stack buffer is checked against
    the buffer's capacity, real_caps = the capacities of the pinned source).
 
-   State of the code (/repo a8219b1): extract_element is bounded (d48d8ce), decode_group leaves
-   its loop on an empty element (a0d41df), fast_atoi honours '-' and does not shift (a8219b1).
-   The decode theorems are therefore stated for ALL byte strings.  NOT repaired and stated as
-   refutations / partial theorems: extract_element_fixed_width (tag write unbounded and not
-   terminated), output[] of encode(f8String&) (F07), the missing range test of fast_atoi<int>,
-   the date/time parsers.  The pre-repair definitions (extract_element_orig, decode_group_orig)
-   carry the witnesses of the repaired defects. *)
+   State of the code (/repo 094581d): extract_element (d48d8ce) and extract_element_fixed_width
+   (ce1e2cc) are bounded, decode_group leaves its loop on an empty element (a0d41df), fast_atoi
+   honours '-' and does not shift (a8219b1), calc_chksum loads with memcpy (9d9ce26), the date/time
+   parsers do not shift and clamp the month (da4ab8c).  Decoding is therefore proved safe for ALL
+   byte strings.  NOT repaired and stated as refutations / partial theorems: output[] of
+   encode(f8String&) (F07), the missing range test of fast_atoi<int>, the 64-bit tick product of the
+   date/time constructors.  The pre-repair definitions (suffix _orig) carry the witnesses of the repaired
+   defects. *)
 From Coq Require Import NArith ZArith List Bool String.
 From F8 Require Import Codec.Bytes Codec.Meta Codec.Extract Codec.Decode Codec.Encode Codec.Example
                        C03.Bounds C03.ExtractProofs C03.FactoryProofs C03.EncodeProofs.
@@ -25,31 +26,16 @@ Proof. exact extract_element_safe. Qed.
 Print Assumptions c03_extract_element_safe.
 
 (* Decoding: for every schema with closed group tables (c03_wf, checked on the dumped metadata at
-   every run) and EVERY byte string shorter than 2^32, strict or permissive, with or without
-   checksum test, Message::factory returns a message or throws a library exception, or ends in one
-   of the two memory errors of the unrepaired fixed-width extractor (classified): the tag write
-   past tag[2048] or the read of tag[] beyond the bytes written.  Never another overrun of the
-   tag/val/len/mtype buffers, never a read past the input, never Diverge, never Fuel. *)
+   every run) and EVERY byte string shorter than 2^32 -- Length/data pairs included --, strict or
+   permissive, with or without checksum test, Message::factory returns a message or throws a library
+   exception: no overrun of the tag/val/len/mtype buffers, no read past the input or of bytes never
+   written, no Diverge, no Fuel.  (UB inside the value constructors is the subject of the
+   fast_atoi / date-time theorems below; memory safety of encode of c03_encode_*.) *)
 Theorem c03_decode_safe : forall c bytes no_chksum permissive,
   c03_wf c = true -> is_bytes bytes = true -> lenN bytes < 4294967296 ->
-  classified (factory c real_caps bytes no_chksum permissive).
+  safe (factory c real_caps bytes no_chksum permissive).
 Proof. exact c03_decode_safe_lemma. Qed.
 Print Assumptions c03_decode_safe.
-
-(* ... if no run of digits in the input reaches 2048, only the uninitialised read remains ... *)
-Theorem c03_decode_digits_partial : forall c bytes no_chksum permissive,
-  c03_wf c = true -> is_bytes bytes = true -> lenN bytes < 4294967296 ->
-  digit_runs_ok MAX_FLD_LENGTH 0 bytes = true ->
-  classified_uninit (factory c real_caps bytes no_chksum permissive).
-Proof. exact c03_decode_digits_lemma. Qed.
-Print Assumptions c03_decode_digits_partial.
-
-(* ... and for a schema without Length/data pairs the property holds as stated: Ok or exception. *)
-Theorem c03_decode_safe_nodata_partial : forall c bytes no_chksum permissive,
-  c03_wf c = true -> c03_nodata c = true -> is_bytes bytes = true -> lenN bytes < 4294967296 ->
-  safe (factory c real_caps bytes no_chksum permissive).
-Proof. exact c03_decode_safe_nodata_lemma. Qed.
-Print Assumptions c03_decode_safe_nodata_partial.
 
 (* Totality: on EVERY list of numbers the fuel dec_fuel suffices (each turn of each loop of decode /
    decode_group consumes at least two bytes) and the repaired decode_group never stalls. *)
@@ -59,17 +45,24 @@ Theorem c03_decode_total : forall c bytes no_chksum permissive,
 Proof. exact c03_decode_total_lemma. Qed.
 Print Assumptions c03_decode_total.
 
-(* NOT repaired (finding C03-fixedwidth-tag): after a Length field the 2049th digit of a run is
-   written past tag[2048]; a data tag longer than the Length field's own makes decode read tag[]
-   beyond the bytes written.  Both inputs are byte strings; the second has short digit runs. *)
-Theorem c03_fixed_width_refuted :
-  factory ex_ctx real_caps (fw_digits 2049) false false = OOB site_tag_write /\
-  factory ex_ctx real_caps (fw_digits 2048) false false = OOB site_uninit_tag /\
-  digit_runs_ok MAX_FLD_LENGTH 0 (fw_digits 2047) = true /\ digit_runs_ok MAX_FLD_LENGTH 0 (fw_digits 2049) = false /\
-  factory ex_ctx real_caps fw_uninit false false = OOB site_uninit_tag /\
-  is_bytes (fw_digits 2049) = true /\ is_bytes fw_uninit = true /\ digit_runs_ok MAX_FLD_LENGTH 0 fw_uninit = true.
-Proof. exact c03_fixed_width_refuted_lemma. Qed.
-Print Assumptions c03_fixed_width_refuted.
+(* The fixed-width extractor never leaves its buffers either (repaired by ce1e2cc). *)
+Theorem c03_extract_fixed_width_safe : forall tcap vcap from sz val_sz,
+  0 < tcap -> 0 < vcap -> sz <= lenN from ->
+  forall s, extract_element_fixed_width from sz val_sz tcap vcap <> XOOB s.
+Proof. exact extract_fw_safe. Qed.
+Print Assumptions c03_extract_fixed_width_safe.
+
+(* F06 residue, repaired by ce1e2cc: the ORIGINAL fixed-width extractor writes the 2049th digit past
+   tag[2048] and leaves the tag unterminated (decode read tag[] beyond the bytes written). *)
+Theorem c03_fixed_width_orig_refuted :
+  extract_element_fixed_width_orig (digits_tok 2049) (lenN (digits_tok 2049)) 1 MAX_FLD_LENGTH MAX_FLD_LENGTH = XOOB site_tag_write /\
+  extract_element_fixed_width (digits_tok 2049) (lenN (digits_tok 2049)) 1 MAX_FLD_LENGTH MAX_FLD_LENGTH = XFail [] [] /\
+  (exists t v r, extract_element_fixed_width (digits_tok 2047) (lenN (digits_tok 2047)) 1 MAX_FLD_LENGTH MAX_FLD_LENGTH = XOk t v r) /\
+  cstr_known (tagbuf_after_fw_orig [56; 57; 56; 57] (tagbuf_after [57; 51] [])) = None /\
+  cstr_known (tagbuf_after_fw [56; 57; 56; 57] (tagbuf_after [57; 51] [])) = Some [56; 57; 56; 57] /\
+  safe (factory ex_ctx real_caps (fw_digits 2049) false false) /\ safe (factory ex_ctx real_caps fw_uninit false false).
+Proof. exact c03_fixed_width_orig_refuted_lemma. Qed.
+Print Assumptions c03_fixed_width_orig_refuted.
 
 (* F06, repaired by d48d8ce: the ORIGINAL extract_element writes a value of 2048 bytes through
    val[2048]; the repaired one fails the extraction and factory answers with an exception. *)
@@ -134,25 +127,43 @@ Theorem c03_fast_atoi_ub_refuted :
 Proof. exact c03_atoi_ub_lemma. Qed.
 Print Assumptions c03_fast_atoi_ub_refuted.
 
-(* The date/time field constructors (parse_decimal / time_to_epoch, field.hpp) have UB on received
-   texts: month 14 indexes mon_days[13] + 1, a char below '0' leads to a shift of a negative value,
-   year 9999 overflows the 64-bit tick count; None = the parser reads beyond the text. *)
-Theorem c03_datetime_ub_refuted :
-  dt_ub ft_UTCTimestamp (bytes_of_string "20231401-00:00:00"%string) = Some true /\
-  dt_ub ft_UTCTimestamp (bytes_of_string "2023-101-00:00:00.000"%string) = Some true /\
-  dt_ub ft_LocalMktDate (bytes_of_string "99990101"%string) = Some true /\
-  dt_ub ft_UTCTimestamp (bytes_of_string "20230101-00:00:00.000"%string) = Some false /\
-  dt_ub ft_UTCTimestamp (bytes_of_string "20391301-00:00:00"%string) = Some false /\
-  dt_ub ft_UTCTimestamp (bytes_of_string "2023"%string) = None.
-Proof. exact c03_datetime_ub_lemma. Qed.
-Print Assumptions c03_datetime_ub_refuted.
+(* The date/time field constructors (field.hpp), repaired by da4ab8c: a month outside 01..13
+   indexed mon_days out of bounds and a char below '0' led to a shift of a negative value
+   (dt_ub_orig); the repaired parsers have no UB on these texts (dt_ub). *)
+Theorem c03_datetime_ub_orig_refuted :
+  dt_ub_orig ft_UTCTimestamp (bytes_of_string "20231401-00:00:00"%string) = Some true /\
+  dt_ub ft_UTCTimestamp (bytes_of_string "20231401-00:00:00"%string) = Some false /\
+  dt_ub_orig ft_UTCTimestamp (bytes_of_string "2023-101-00:00:00.000"%string) = Some true /\
+  dt_ub ft_UTCTimestamp (bytes_of_string "2023-101-00:00:00.000"%string) = Some false /\
+  dt_ub_orig ft_LocalMktDate (bytes_of_string "20230001"%string) = Some true /\
+  dt_ub ft_LocalMktDate (bytes_of_string "20230001"%string) = Some false.
+Proof. exact c03_datetime_ub_orig_lemma. Qed.
+Print Assumptions c03_datetime_ub_orig_refuted.
 
-(* Non-vacuity: the example schema is well-formed, an encoded message with nested groups is a byte
-   string and decodes; a schema without Length/data pairs exists and decodes the same message. *)
+(* NOT repaired: time_to_epoch(..) * Tickval::billion is a signed 64-bit product -- a year before
+   1678 or after 2262 overflows it (UB); inside that range there is none.  None = the parser reads
+   beyond the text (stale bytes of val[]). *)
+Theorem c03_datetime_ticks_refuted :
+  dt_ub ft_LocalMktDate (bytes_of_string "99990101"%string) = Some true /\
+  dt_ub ft_UTCTimestamp (bytes_of_string "00000101-00:00:00"%string) = Some true /\
+  dt_ub ft_UTCTimestamp (bytes_of_string "22620101-00:00:00"%string) = Some false /\
+  dt_ub ft_UTCTimestamp (bytes_of_string "16780101-00:00:00"%string) = Some false /\
+  dt_ub ft_UTCTimestamp (bytes_of_string "20230101-00:00:00.000"%string) = Some false /\
+  dt_ub ft_UTCTimestamp (bytes_of_string "2023"%string) = None.
+Proof. exact c03_datetime_ticks_lemma. Qed.
+Print Assumptions c03_datetime_ticks_refuted.
+
+(* calc_chksum (D4), repaired by 9d9ce26: the uint32 loads were misaligned for a buffer that is not
+   4-aligned (chksum_ub_orig); with memcpy there is no alignment requirement. *)
+Theorem c03_chksum_align_orig_refuted :
+  chksum_ub_orig 1 8 = true /\ chksum_ub_orig 4 64 = false /\ forall m l, chksum_ub m l = false.
+Proof. exact c03_chksum_align_orig_lemma. Qed.
+Print Assumptions c03_chksum_align_orig_refuted.
+
+(* Non-vacuity: the example schema (with a Length/data pair and groups without mandatory member) is
+   well-formed, an encoded message with nested groups is a byte string and decodes. *)
 Theorem c03_nonvacuous :
   c03_wf ex_ctx = true /\ is_bytes ex_list_bytes = true /\ lenN ex_list_bytes < 4294967296 /\
-  (exists m, factory ex_ctx real_caps ex_list_bytes false false = Ok m) /\
-  c03_wf safe_ctx = true /\ c03_nodata safe_ctx = true /\
-  (exists m, factory safe_ctx real_caps ex_list_bytes false false = Ok m).
+  (exists m, factory ex_ctx real_caps ex_list_bytes false false = Ok m).
 Proof. exact c03_nonvacuous_lemma. Qed.
 Print Assumptions c03_nonvacuous.
